@@ -11,6 +11,7 @@ package props
 // HKDF+HMAC verifier.
 
 import (
+	"sync"
 	"bytes"
 	"crypto/hmac"
 	"encoding/base64"
@@ -329,6 +330,27 @@ func c11Boundary(res *vlib.Result, viaHandshake bool) {
 // three verifier configurations (the usual one; one whose key directory holds a DIFFERENT
 // key under the name k1; one with a much shorter maximum age) over three tokens; every
 // call is judged by the reference for ITS configuration.
+// c11CachingReader: a CredentialReader that reads each file once and afterwards returns the
+// same slice (a reader may cache; the bytes it returns are its own).
+type c11CachingReader struct {
+	mu    sync.Mutex
+	files map[string][]byte
+}
+
+func (r *c11CachingReader) ReadCredential(path string) ([]byte, error) {
+	r.mu.Lock()
+	defer r.mu.Unlock()
+	if b, ok := r.files[path]; ok {
+		return b, nil
+	}
+	b, err := os.ReadFile(path)
+	if err != nil {
+		return nil, err
+	}
+	r.files[path] = b
+	return b, nil
+}
+
 func c11VerifyHistory(res *vlib.Result) {
 	e := getTokenEnv()
 	now := time.Now().Unix()
@@ -355,8 +377,12 @@ func c11VerifyHistory(res *vlib.Result) {
 		sc.TokenSigningKeyDir, sc.TokenMaxAge = dir, maxAge
 		return sc
 	}
+	cached := mk(e.KeyDir, c11MaxAge)
+	cached.Credentials = &c11CachingReader{files: map[string][]byte{}}
 	cfgs := []vcfg{
 		{"usual", mk(e.KeyDir, c11MaxAge), true, c11MaxAge},
+		// a verifier whose credential reader caches: every load of a key file is handed the SAME bytes
+		{"caching-credential-reader", cached, true, c11MaxAge},
 		{"other-k1-key", mk(otherDir, c11MaxAge), false, c11MaxAge},
 		{"max-age-500", mk(e.KeyDir, 500), true, 500},
 	}
@@ -736,7 +762,7 @@ func c11Verify(res *vlib.Result, label, class, tok string) {
 func C11Plan() *vlib.Plan {
 	p := &vlib.Plan{
 		Property: "C11", Level: "fault_enumeration",
-		Rule:   "E-FAULT: (1) 20 token variants and every single-bit flip of a valid token string, each through a real client/server TOKEN handshake (no cipher, so the AKEP2 result is the result); (2) for each of the three AKEP2 messages: every byte offset (header and payload) x {^01,^80}, truncation at every 8th byte, 1/8 trailing bytes appended, for step 1 a field-aware substitution of the claimed client identity by {bob, empty, +1 char}, and field-aware alterations of every field of every message (status := 1/-1/2/256; each proof, nonce and nonce echo := empty / first byte only / last byte dropped / one zero byte added / all zero / length 0 or length-1 with the bytes kept / several bytes changed so that the differences cancel (2 x ^80, 4 x ^40, 16 x ^10, every byte ^80, 2 x ^55); each identity echo := empty / bob / +1 char); (3) VerifyIDToken on the same variants and bit flips; (4) an independent scripted AKEP2 client (own HKDF/HMAC arithmetic) against the real server: 20 token variants (incl. those cedar's client refuses to send) x claimed identity {the subject, bob, root} x proof {honest, empty, wrong, computed over the identity the server echoed} x RB echo {honest, empty, wrong} x {no, one} trailing byte; (5) time claims AT their limits (exp = now-1 / now / now+1, iat = now / now-max / now-max-1) through VerifyIDToken and through the scripted client, each call aligned on a wall-clock second and kept only if the clock still shows that second afterwards; (6) every token variant with TOKEN and SSL listed on both sides: when the token exchange fails and SSL completes the handshake, the failed token's subject must not become the session's identity; (7) all pairs of successive VerifyIDToken calls over 3 tokens x 3 verifier configurations (usual; another key under the same key id; shorter maximum age): each verdict is that of the reference for its own configuration, whatever was verified before. Oracle: independent HKDF+HMAC verifier with the same time rules (variants sit 120 s away from the limits); server success => token valid and no client message altered outside the claimed-identity field; client success => server message unaltered; recorded user = token subject. Non-trivial = the mutated element reached the receiving side.",
+		Rule:   "E-FAULT: (1) 20 token variants and every single-bit flip of a valid token string, each through a real client/server TOKEN handshake (no cipher, so the AKEP2 result is the result); (2) for each of the three AKEP2 messages: every byte offset (header and payload) x {^01,^80}, truncation at every 8th byte, 1/8 trailing bytes appended, for step 1 a field-aware substitution of the claimed client identity by {bob, empty, +1 char}, and field-aware alterations of every field of every message (status := 1/-1/2/256; each proof, nonce and nonce echo := empty / first byte only / last byte dropped / one zero byte added / all zero / length 0 or length-1 with the bytes kept / several bytes changed so that the differences cancel (2 x ^80, 4 x ^40, 16 x ^10, every byte ^80, 2 x ^55); each identity echo := empty / bob / +1 char); (3) VerifyIDToken on the same variants and bit flips; (4) an independent scripted AKEP2 client (own HKDF/HMAC arithmetic) against the real server: 20 token variants (incl. those cedar's client refuses to send) x claimed identity {the subject, bob, root} x proof {honest, empty, wrong, computed over the identity the server echoed} x RB echo {honest, empty, wrong} x {no, one} trailing byte; (5) time claims AT their limits (exp = now-1 / now / now+1, iat = now / now-max / now-max-1) through VerifyIDToken and through the scripted client, each call aligned on a wall-clock second and kept only if the clock still shows that second afterwards; (6) every token variant with TOKEN and SSL listed on both sides: when the token exchange fails and SSL completes the handshake, the failed token's subject must not become the session's identity; (7) all pairs of successive VerifyIDToken calls over 3 tokens x 4 verifier configurations (usual; one whose credential reader caches and hands out the same bytes on every load; another key under the same key id; shorter maximum age): each verdict is that of the reference for its own configuration, whatever was verified before. Oracle: independent HKDF+HMAC verifier with the same time rules (variants sit 120 s away from the limits); server success => token valid and no client message altered outside the claimed-identity field; client success => server message unaltered; recorded user = token subject. Non-trivial = the mutated element reached the receiving side.",
 		Assume: []string{"base64 decoding is shared with the code (non-canonical trailing bits that decode identically are the same token)", "time-dependent variants are 120 s away from the boundary"},
 	}
 	p.Gen = func(tier string, yield func(vlib.Case)) {
